@@ -341,7 +341,7 @@ def streamReg (c : Cfg) (pkgs : List Pkg) (i : Nat) (e : Entry) (st : St) : Exce
       | .overwrite =>
         -- `Remove(name)` unlinks the last component itself, then the file is created there
         match parentOf st.tree comps with
-        | none => .error (.error, st.flags)
+        | none => .error (.error, st.flags ++ fl)
         | some d =>
           let own := d ++ [comps.getLastD []]
           installed (removeT st.tree own) own fl (some dec)
